@@ -1247,7 +1247,7 @@ int main(int argc, char **argv) {
     c.thorough = (int) v_arg_i(argc, argv, "--thorough", 0);
     c.budget = v_arg_i(argc, argv, "--budget", c.thorough ? (2 << 20) : (512 << 10));
     g_check = c.mode;
-    run_opts_t ro = {.cpu_s = (int) v_arg_i(argc, argv, "--cpu", !strcmp(c.mode, "c02") ? 120 : 20),   /* c02: the long-double oracle is O(samples) per request */ .wall_s = (int) v_arg_i(argc, argv, "--wall", !strcmp(c.mode, "c02") ? 600 : 120),   /* a wall-clock overrun is inconclusive, never a violation: generous on a loaded machine */ .no_fork = v_has_arg(argc, argv, "--no-fork"), .as_mb = 0};
+    run_opts_t ro = {.cpu_s = (int) v_arg_i(argc, argv, "--cpu", !strcmp(c.mode, "c02") ? 600 : 20),   /* c02: the long-double oracle is O(samples) per request: the heaviest thorough case (6 levels, 3 M samples of i24) needs about 2 CPU-minutes */ .wall_s = (int) v_arg_i(argc, argv, "--wall", !strcmp(c.mode, "c02") ? 2400 : 120),   /* a wall-clock overrun is inconclusive, never a violation: generous on a loaded machine */ .no_fork = v_has_arg(argc, argv, "--no-fork"), .as_mb = 0};
 #if !defined(__SANITIZE_ADDRESS__) && !defined(__SANITIZE_THREAD__)
     ro.as_mb = 6144;
 #endif
